@@ -476,9 +476,9 @@ namespace C06Example
     ids; app "a" is active before and between b's commands (so b's nameplate gets id 2 in the
     full run and id 1 in the projected run); a's close, a sweep, a reconnect with a reused
     connection id that binds to "b" this time, a second claimant, list, release.
-    (The sweep comes when only "b" has rows: with two apps `get_all_apps` sorts two strings,
-    and `decide` cannot evaluate `String` comparisons in the kernel; the theorem has no such
-    restriction.) -/
+    (The sweep comes when only "b" has rows: with two apps `get_all_apps` sorts a two-element
+    list, and the kernel cannot evaluate `List.mergeSort` — defined by well-founded recursion —
+    on two or more elements, so `decide` fails; the theorem has no such restriction.) -/
 def hist : List Op :=
   [ .connect 1, .connect 2,
     .recv 1 1 (.int 1) (.bind (some "a") (some "s1") none none),
@@ -513,7 +513,7 @@ example : hist.length = 19 ∧ (projB "b" s₀ hist).length = 14 := by decide +k
 
 /-- evaluated, not derived from the theorem: frames of the kept steps, the view, the usage rows
     and b's connection records agree … -/
-example : B.2.filter Event.isFrame = obsB "b" s₀ hist ∧ (obsB "b" s₀ hist).length = 25 ∧
+example : B.2.filter Event.isFrame = obsB "b" s₀ hist ∧ (obsB "b" s₀ hist).length = 18 ∧
     B.1.db.viewB "b" = A.1.db.viewB "b" ∧
     B.1.udb.clientsB "b" = A.1.udb.clientsB "b" ∧ (A.1.udb.clientsB "b").length = 2 ∧
     B.1.conns.filter (fun x => x.app = some "b") = A.1.conns.filter (fun x => x.app = some "b") := by
@@ -521,9 +521,9 @@ example : B.2.filter Event.isFrame = obsB "b" s₀ hist ∧ (obsB "b" s₀ hist)
 
 /-- … the view is not trivial … -/
 example : A.1.db.viewB "b" =
-    { nameplates := [("4", "m2")], npSides := [("4", false, "s1", 2), ("4", true, "s2", 8)],
-      mailboxes := [⟨"b", "m2", 9, true⟩],
-      mbSides := [⟨"m2", true, "s1", 2, none⟩, ⟨"m2", true, "s2", 8, none⟩],
+    { nameplates := [("4", "m2")], npSides := [("4", false, "s1", 2), ("4", true, "s2", 9)],
+      mailboxes := [⟨"b", "m2", 10, true⟩],
+      mbSides := [⟨"m2", true, "s1", 2, none⟩, ⟨"m2", true, "s2", 9, none⟩],
       messages := [⟨"b", "m2", "s1", .str "pake", .str "x", 4, .str "4"⟩] } := by
   decide +kernel
 
